@@ -53,6 +53,33 @@ Example mutant_ctor_detected :
   /\ check [mutant_ctor false; mutant_ctor_init false] [] (mutant_ctor false) = true.
 Proof. vm_compute. repeat split; reflexivity. Qed.
 
+(* a clamp written through a shallow copy: s = p.copy(deep=False); s.value = max(s.value, eps); return s.  The shallow copy
+   is a new Variable over the SAME storage, and assigning .value / .values / .variances / .unit writes that storage (the translator
+   emits SAug for such stores, tools/alias2coq.py BUFFER_ATTRS), so the caller's p is written; with a real copy it is not *)
+Definition mutant_value_store (shallow : bool) : fundef :=
+  mkfun 9020 "mutant: s = p.copy(deep=False); s.value = max(s.value, eps)" [(10, PBlob)]%N
+        [SAssign 10 (if shallow
+                     then ERecord 1000 [(F_DATA, EField (EVar 10) F_DATA); (F_COORDS, EShallow 1001 (EField (EVar 10) F_COORDS));
+                                        (F_MASKS, EShallow 1002 (EField (EVar 10) F_MASKS))] [EElem (EVar 10)] []
+                     else EFresh 1000 [EVar 10]);
+         SAug (EVar 10) ENone; SReturn (EVar 10)]%N [] [].
+Example mutant_value_store_detected :
+  check [mutant_value_store true] [] (mutant_value_store true) = false
+  /\ writes [mutant_value_store true] [] [] 6 (mutant_value_store true) = [0%N]
+  /\ check [mutant_value_store false] [] (mutant_value_store false) = true.
+Proof. vm_compute. repeat split; reflexivity. Qed.
+(* adding a ready-made item to a block: b.add(item, comment=c) implemented as "item.comment = c; b._content.append(item)" writes the
+   caller's item; appending alone writes only the block the method is called on (its documented effect: fallowed = [self]) *)
+Definition mutant_block_add (sets_comment : bool) : fundef :=
+  mkfun 9021 "mutant: Block.add" [(F_SELF, PBlob); (10, PBlob); (11, PScalar)]%N
+        ((if sets_comment then [SSetField (EVar 10) 12 (EVar 11)] else []) ++ [SExpr (EMut (EField (EVar F_SELF) 13) [EVar 10])])%list
+        [] [F_SELF].
+Example mutant_block_add_detected :
+  check [mutant_block_add true] [] (mutant_block_add true) = false
+  /\ check [mutant_block_add false] [] (mutant_block_add false) = true
+  /\ writes_allowed [mutant_block_add false] [] (mutant_block_add false) = true.
+Proof. vm_compute. repeat split; reflexivity. Qed.
+
 Theorem no_arg_write_as_float_type : no_arg_write F_utils_as_float_type.
 Proof. enumerate. Qed.
 Theorem no_arg_write_L1 : no_arg_write F_beamline_L1.
@@ -248,6 +275,26 @@ Theorem no_arg_write_CIF_with_reduced_powder_data : no_arg_write F_cif_CIF_with_
 Proof. enumerate. Qed.
 Theorem no_arg_write_CIF_with_powder_calibration : no_arg_write F_cif_CIF_with_powder_calibration.
 Proof. enumerate. Qed.
+(* the low-level CIF interface: Block.add (appends to the block it is called on - fallowed = [self] - and must leave the chunk /
+   loop / mapping it is handed alone, with or without a comment), and the constructor calls Block(...), Loop(...), Chunk(...)
+   (new instances; the caller's content list, column mapping and pairs are only read) *)
+Theorem no_arg_write_Block_add : no_arg_write F_cif_Block_add.
+Proof. enumerate. Qed.
+Example block_add_appends_to_self : writes_allowed PROG LOOPSITES F_cif_Block_add = true.
+Proof. vm_compute. reflexivity. Qed.
+Theorem no_arg_write_Block_new : no_arg_write F_cif_Block__new_.
+Proof. enumerate. Qed.
+Theorem no_arg_write_Loop_new : no_arg_write F_cif_Loop__new_.
+Proof. enumerate. Qed.
+Theorem no_arg_write_Chunk_new : no_arg_write F_cif_Chunk__new_.
+Proof. enumerate. Qed.
+(* the peak widths computed from caller-owned parameter dicts *)
+Theorem no_arg_write_GaussianModel_fwhm : no_arg_write F_model_GaussianModel_fwhm.
+Proof. enumerate. Qed.
+Theorem no_arg_write_LorentzianModel_fwhm : no_arg_write F_model_LorentzianModel_fwhm.
+Proof. enumerate. Qed.
+Theorem no_arg_write_PseudoVoigtModel_fwhm : no_arg_write F_model_PseudoVoigtModel_fwhm.
+Proof. enumerate. Qed.
 
 (* the chopper family (chopper/disk_chopper.py, chopper/filtering.py, chopper/nexus_chopper.py and
    tof.chopper_cascade.Chopper.from_disk_chopper).  F_diskchopper_DiskChopper__new_ is the constructor CALL
@@ -415,6 +462,13 @@ Definition ANALYSED : list fundef := [F_utils_as_float_type;
   F_cif_CIF_with_beamline;
   F_cif_CIF_with_reduced_powder_data;
   F_cif_CIF_with_powder_calibration;
+  F_cif_Block_add;
+  F_cif_Block__new_;
+  F_cif_Loop__new_;
+  F_cif_Chunk__new_;
+  F_model_GaussianModel_fwhm;
+  F_model_LorentzianModel_fwhm;
+  F_model_PseudoVoigtModel_fwhm;
   F_diskchopper_DiskChopper__new_;
   F_diskchopper_DiskChopper_from_nexus;
   F_diskchopper_DiskChopper_time_offset_open;
@@ -539,6 +593,13 @@ Proof.
   (Forall_cons _ no_arg_write_CIF_with_beamline
   (Forall_cons _ no_arg_write_CIF_with_reduced_powder_data
   (Forall_cons _ no_arg_write_CIF_with_powder_calibration
+  (Forall_cons _ no_arg_write_Block_add
+  (Forall_cons _ no_arg_write_Block_new
+  (Forall_cons _ no_arg_write_Loop_new
+  (Forall_cons _ no_arg_write_Chunk_new
+  (Forall_cons _ no_arg_write_GaussianModel_fwhm
+  (Forall_cons _ no_arg_write_LorentzianModel_fwhm
+  (Forall_cons _ no_arg_write_PseudoVoigtModel_fwhm
   (Forall_cons _ no_arg_write_DiskChopper_new
   (Forall_cons _ no_arg_write_DiskChopper_from_nexus
   (Forall_cons _ no_arg_write_DiskChopper_time_offset_open
@@ -564,6 +625,6 @@ Proof.
   (Forall_cons _ no_arg_write_filtering__next_highest
   (Forall_cons _ no_arg_write_extract_chopper_from_nexus
   (Forall_cons _ no_arg_write_Chopper_from_disk_chopper
-  (Forall_nil _))))))))))))))))))))))))))))))))))))))))))))))))))))))))))))))))))))))))))))))))))))))))))))))))))))))))))))))))))))))))))).
+  (Forall_nil _)))))))))))))))))))))))))))))))))))))))))))))))))))))))))))))))))))))))))))))))))))))))))))))))))))))))))))))))))))))))))))))))))).
 Qed.
 
